@@ -166,6 +166,11 @@ def _l2_traces(ctx, prop, histories=None, scn_name='base'):
     out = []
     raw = mcm.record(scn_name, histories)
     ctx.l2raw = raw
+    if prop == 'C03' and generated:
+        dscn = mcm.SCENARIOS['dup']
+        raw = raw + mcm.record('dup', [mcm.gen_random(dscn, rng, rng.choice([8, 12])) if k % 2 else
+                                       mcm.gen_servers(dscn, rng, rng.choice([5, 8]))
+                                       for k in range(40 if ctx.quick else 400)])
     if prop == 'C01' and generated:
         raw = raw + mcm.record('big', [mcm.gen_resize(mcm.SCENARIOS['big'], rng)
                                        for _ in range(30 if ctx.quick else 300)])
@@ -354,7 +359,7 @@ def replay(ctx, prop, path):
             # judged after the step that follows the recorded prefix: a restart for keepRestart
             h = [tuple(x) for x in payload['history']]
             h.append(('Restart', []) if payload['clause'] == 'C08.keepRestart' else ('Cycle', []))
-        traces = _l2_traces(ctx, prop, [h], scn_name if scn_name in ('base', 'big') else 'base')
+        traces = _l2_traces(ctx, prop, [h], scn_name if scn_name in ('base', 'big', 'dup') else 'base')
         verdicts, _ = sc.validate(traces)
         ctx.extra_violations = _c08_master(ctx, prop)
         return judge(ctx, prop, traces, verdicts)
